@@ -114,6 +114,12 @@ def asan_tier(pid, env):
         zv = build_zv_asan()
         shutil.copy(os.path.join(VERIF, "known_findings.json"), work)
         e2 = dict(env, VERIF_DIR=work, VERIF_TIER="quick", VERIF_ASAN_BUILD="1", ASAN_OPTIONS="detect_leaks=0:abort_on_error=1:symbolize=1:hard_rss_limit_mb=6000:max_allocation_size_mb=2048")
+        if pid == "C03":
+            # sanitizer processes are several times larger than native ones: at most 8 workers (as measured: 10 min)
+            try:
+                e2["VERIF_THREADS"] = str(min(8, int(e2.get("VERIF_THREADS", "8"))))
+            except ValueError:
+                e2["VERIF_THREADS"] = "8"
         if pid == "C04":
             e2.setdefault("C04_MAX_CAP", "65")  # exhausts under the sanitizer in about a minute (129 hits the engine's wall cap)
         for k in ("VERIF_ASAN_RESULT", "C04_MIRI_RESULT", "C04_MIRI", "VERIF_ASAN"):
